@@ -49,7 +49,10 @@ Replacements == {"null", "true", "zero", "minus_one", "huge_number", "empty_stri
                  "deep_nesting", "removed", "duplicated", "other_type", "string_of_number", "array_of_self", "negative_index",
                  "huge_index", "large_index", "varint_overflow", "pointer_into_own_source", "non_string_key_value", "unicode_garbage",
                  \* (a '~' that starts no escape; a value of the same shape - width, alphabet - that is not the value)
-                 "stray_tilde", "same_shape_other_value"}
+                 "stray_tilde", "same_shape_other_value",
+                 \* (a short text that is deep: 48 nested lists / objects with a leaf that no rule accepts - work that doubles
+                 \* per level never ends, although the text has a hundred bytes)
+                 "deep_list_bad_leaf", "deep_object_bad_leaf"}
 
 \* chains of copy / move operations among a few locations of one document: a library that links nodes
 \* instead of copying them must not be led into a cyclic document
